@@ -101,7 +101,7 @@ returns what it returns on an unlinked list, raises nothing, and both lists
 hold its result. -/
 theorem C20_converge_list (E : Sync.Env α) (w : World α) (p q : Pair) (op : Op α) (o : Out α) (e : Event α)
     (hL : w.locked = []) (he : (⟨p, q⟩ : Edge) ∈ w.edges)
-    (hlp : E.isList p.2 = true) (hlq : E.isList q.2 = true) (hhook : p ∈ w.hooked)
+    (hlp : E.isList p = true) (hlq : E.isList q = true) (hhook : p ∈ w.hooked)
     (hstep : listStep (E.tl p) (w.list p) op = .ok o) (hev : o.event = some e)
     (heq : w.list q = w.list p)
     (hfix : valAll (E.iv q) 0 e.added = .ok e.added)
@@ -144,7 +144,7 @@ items unchanged and the propagation reaches no trait twice. -/
 theorem C20_converge_list_reachable [DecidableEq α] (E : Sync.Env α) (w0 : World α) (cs : List (Cmd α))
     (h0 : HookOk E w0) (hL0 : w0.locked = []) (p q : Pair) (op : Op α) (o : Out α) (e : Event α)
     (he : (⟨p, q⟩ : Edge) ∈ (World.run E w0 cs).edges)
-    (hlp : E.isList p.2 = true) (hlq : E.isList q.2 = true)
+    (hlp : E.isList p = true) (hlq : E.isList q = true)
     (hstep : listStep (E.tl p) ((World.run E w0 cs).list p) op = .ok o) (hev : o.event = some e)
     (heq : (World.run E w0 cs).list q = (World.run E w0 cs).list p)
     (hfix : valAll (E.iv q) 0 e.added = .ok e.added)
@@ -158,7 +158,7 @@ theorem C20_converge_list_reachable [DecidableEq α] (E : Sync.Env α) (w0 : Wor
 /-- A mutation that emits no event changed nothing (C05), so there is nothing to
 propagate: it touches only the mutated trait. -/
 theorem C20_silent_mutation (E : Sync.Env α) (w : World α) (p r : Pair) (op : Op α) (o : Out α)
-    (hlp : E.isList p.2 = true) (hstep : listStep (E.tl p) (w.list p) op = .ok o) (hev : o.event = none)
+    (hlp : E.isList p = true) (hstep : listStep (E.tl p) (w.list p) op = .ok o) (hev : o.event = none)
     (hr : r ≠ p) : SameAt r w (w.mutate E p op).world := by
   have happ : applyMutate E w p op = .ok ({ w with val := upd w.val p (.l o.items) }, o.ret, none) := by
     simp [applyMutate, hlp, hstep, hev]
@@ -215,7 +215,7 @@ leaves the world as it was. -/
 theorem C20_raises_only_own [DecidableEq α] (E : Sync.Env α) (w : World α) (p : Pair) :
     (∀ v, (w.assign E p v).exc = (match validate E p v with | .ok _ => none | .error e => some e)) ∧
     (∀ v e, (w.assign E p v).exc = some e → (w.assign E p v).world = w) ∧
-    (E.isList p.2 = true → ∀ op, (w.mutate E p op).exc =
+    (E.isList p = true → ∀ op, (w.mutate E p op).exc =
       (match listStep (E.tl p) (w.list p) op with | .ok _ => none | .error e => some e)) :=
   ⟨fun v => assign_exc E w p v, fun v e h => assign_error_world E w p v e h,
    fun hl op => mutate_exc E w p op hl⟩
@@ -314,7 +314,7 @@ theorem C20_fresh_twoSided (E : Sync.Env α) (p q : Pair) (w : World α) (hL : w
 /-! ### Where the code does not meet the statement -/
 
 def idEnv : Sync.Env Int :=
-  { isList := fun n => n == "l" || n == "m", sv := fun _ _ x => .ok x, iv := fun _ _ x => .ok x,
+  { isList := fun p => p.2 == "l" || p.2 == "m", sv := fun _ _ x => .ok x, iv := fun _ _ x => .ok x,
     eq := fun a b => a == b, sort := fun _ l => l }
 
 /-- Freshly created objects: scalars 0, lists empty, no links. -/
@@ -334,7 +334,7 @@ def triangle : World Int :=
 ("several partners" in any arrangement).  The code does not meet it. -/
 def C20_converge_list_full : Prop :=
   ∀ (E : Sync.Env Int) (w : World Int) (p q : Pair) (op : Op Int) (o : Out Int) (e : Event Int),
-    w.locked = [] → (⟨p, q⟩ : Edge) ∈ w.edges → E.isList p.2 = true → E.isList q.2 = true → p ∈ w.hooked →
+    w.locked = [] → (⟨p, q⟩ : Edge) ∈ w.edges → E.isList p = true → E.isList q = true → p ∈ w.hooked →
     listStep (E.tl p) (w.list p) op = .ok o → o.event = some e → w.list q = w.list p →
     valAll (E.iv q) 0 e.added = .ok e.added →
     (w.mutate E p op).world.val q = .l o.items
